@@ -22,6 +22,7 @@
 #include <deque>
 #include <memory>
 #include <string>
+#include <unordered_map>
 #include <unordered_set>
 #include <vector>
 
@@ -103,16 +104,50 @@ std::string describe(Sys& sys, const std::vector<uint32_t>& h) {
 template <class Sys>
 std::unique_ptr<typename Sys::State> build(Sys& sys, const std::vector<uint32_t>& h, size_t upto) {
     auto st = sys.fresh();
-    for (size_t i = 0; i < upto && i < h.size(); ++i) {
-        vh::at_op(sig_label(sys.op_name(h[i])).c_str());
-        sys.apply(*st, h[i]);
-    }
+    // (the ops of a replayed prefix ran crash-free when the prefix was first executed: one label for the whole replay)
+    vh::at_op("replay");
+    for (size_t i = 0; i < upto && i < h.size(); ++i) sys.apply(*st, h[i]);
     return st;
+}
+
+// write "<config>|<h0,h1,...,op>" straight into the shared replay buffer (no std::string churn per transition)
+inline void publish_replay(const std::string& cfg, const std::vector<uint32_t>& h, bool with_op, uint32_t op) {
+    vh::Shared* sm = vh::shm();
+    char* p = sm->replay;
+    char* end = sm->replay + sizeof(sm->replay) - 16;
+    size_t n = cfg.size() < 200 ? cfg.size() : 200;
+    memcpy(p, cfg.data(), n);
+    p += n;
+    *p++ = '|';
+    bool first = true;
+    auto put = [&](uint32_t v) {
+        if (p >= end) return;
+        if (!first) *p++ = ',';
+        first = false;
+        char tmp[12];
+        int k = 0;
+        do {
+            tmp[k++] = (char)('0' + v % 10);
+            v /= 10;
+        } while (v);
+        while (k) *p++ = tmp[--k];
+    };
+    for (uint32_t v : h) put(v);
+    if (with_op) put(op);
+    if (first) *p++ = '-';
+    *p = 0;
 }
 
 template <class Sys>
 Stats explore(Sys& sys, const Options& opt, const std::set<std::string>& skip) {
     Stats S;
+    const std::string cfg_name = sys.name();
+    std::unordered_map<uint32_t, std::string> label_cache;
+    auto label_of = [&](uint32_t op) -> const std::string& {
+        auto it = label_cache.find(op);
+        if (it == label_cache.end()) it = label_cache.emplace(op, sig_label(sys.op_name(op))).first;
+        return it->second;
+    };
     std::unordered_set<Key, KeyHash> seen;
     struct Node {
         std::vector<uint32_t> hist;
@@ -143,7 +178,7 @@ Stats explore(Sys& sys, const Options& opt, const std::set<std::string>& skip) {
             capped = true;
             break;
         }
-        vh::at("replay", replay_str(sys, nd.hist));
+        publish_replay(cfg_name, nd.hist, false, 0);
         auto base = build(sys, nd.hist, nd.hist.size());
         S.replays++;
         std::string base_canon;
@@ -155,17 +190,16 @@ Stats explore(Sys& sys, const Options& opt, const std::set<std::string>& skip) {
         for (uint32_t op : ops) {
             std::vector<uint32_t> h2 = nd.hist;
             h2.push_back(op);
-            std::string rp = replay_str(sys, h2);
-            if (skip.count(rp)) continue;  // known crashing transition: terminal
-            if (!vh::disabled_labels().empty()) {
-                std::string lb = sig_label(sys.op_name(op));
-                if (vh::disabled_labels().count(lb) || vh::disabled_labels().count(lb + "+observe")) continue;
-            }
+            if (!skip.empty() && skip.count(replay_str(sys, h2))) continue;  // known crashing transition: terminal
+            const std::string& lb = label_of(op);
+            if (!vh::disabled_labels().empty() && (vh::disabled_labels().count(lb) || vh::disabled_labels().count(lb + "+observe")))
+                continue;
             if (cur_dirty) {
-                vh::at("destroy", replay_str(sys, cur_hist));
+                vh::at_op("destroy");
+                publish_replay(cfg_name, cur_hist, false, 0);
                 cur.reset();
                 cur_hist = nd.hist;
-                vh::at("replay", replay_str(sys, nd.hist));
+                publish_replay(cfg_name, nd.hist, false, 0);
                 cur = build(sys, nd.hist, nd.hist.size());
                 S.replays++;
                 if (opt.check_canon_on_replay && sys.canon(*cur) != base_canon) {
@@ -175,7 +209,8 @@ Stats explore(Sys& sys, const Options& opt, const std::set<std::string>& skip) {
                 }
             }
             unsigned long long fails_before = vh::shm()->stat_val[vh::stat_slot("failing_cases", false)];
-            vh::at(sig_label(sys.op_name(op)).c_str(), rp);
+            vh::at_op(lb.c_str());
+            publish_replay(cfg_name, nd.hist, true, op);
             sys.apply(*cur, op);
             cur_dirty = true;
             cur_hist = h2;
@@ -185,7 +220,7 @@ Stats explore(Sys& sys, const Options& opt, const std::set<std::string>& skip) {
             std::string c = sys.canon(*cur);
             if (seen.insert(key_of(c)).second) {
                 S.states++;
-                vh::at_op((sig_label(sys.op_name(op)) + "+observe").c_str());
+                vh::at_op((lb + "+observe").c_str());
                 sys.observe(*cur);
                 S.observed++;
                 bool failed2 = vh::shm()->stat_val[vh::stat_slot("failing_cases", false)] != fails_before;
@@ -202,7 +237,8 @@ Stats explore(Sys& sys, const Options& opt, const std::set<std::string>& skip) {
             }
         }
         if (capped) break;
-        vh::at("destroy", replay_str(sys, cur_hist));
+        vh::at_op("destroy");
+        publish_replay(cfg_name, cur_hist, false, 0);
         cur.reset();  // destruction of the reached state runs under the ledger oracles too
     }
     S.closed = !capped && opt.max_depth < 0;
